@@ -124,6 +124,7 @@ struct State {
   std::vector<std::string> keys;  // key table of the built prism
   std::string alphabet;
   path file;  // the prism file the loaded object maps
+  std::string compiled;  // name of the dictionary the last `compile` of this case produced (for `compile again`)
 };
 
 static FILE* out;
@@ -184,6 +185,7 @@ int main(int argc, char** argv) {
   State st;
   RimeApi* api = nullptr;
   int ncompile = 0;
+  unsigned ncases_loaded_twice = 0;
   std::string line;
   while (std::getline(in, line)) {
     std::vector<std::string> a = split(line, ' ');
@@ -288,6 +290,9 @@ int main(int argc, char** argv) {
       if (ok) {
         st.loaded.reset(new PrismX(prism_path));
         ok = st.loaded->Load();
+        // a prism object is shared and loaded again whenever a dictionary that uses it is (re)loaded: the second Load on the
+        // open object must give the same prism
+        if (ok && (ncases_loaded_twice++ % 2 == 0)) ok = st.loaded->Load();
         if (!ok) st.loaded.reset();
       }
       if (!ok) { emit(line, "ok=0"); continue; }
@@ -297,13 +302,19 @@ int main(int argc, char** argv) {
                      " n=" + std::to_string(md->num_spellings) + " alphabet=" + hex(st.alphabet) + " map=" +
                      (st.loaded->has_map() ? "1" : "0"));
     } else if (op == "compile") {
+      // `compile again`: the schema (speller/algebra = the formulas so far) is written anew and the SAME dictionary is compiled over
+      // the outputs of the previous `compile` of this case, without forcing a rebuild: DictCompiler decides from the checksums
+      const bool again = a.size() > 1 && a[1] == "again" && !st.compiled.empty();
       if (!api) {   // Service + deployer directories (staging = <work>/build)
         api = start(work, work, false);
         std::error_code e0;
         std::filesystem::remove_all(work + "/build", e0);   // nothing stale from an earlier run in the same directory
         std::filesystem::create_directories(work + "/build");
       }
-      std::string name = "c09d" + std::to_string(++ncompile);
+      std::string name = again ? st.compiled : "c09d" + std::to_string(++ncompile);
+      static std::string last_name;   // of any case: its outputs are dropped by the next fresh compile
+      const std::string previous = last_name;
+      st.compiled = last_name = name;
       {
         std::ofstream d(work + "/" + name + ".dict.yaml");
         d << "# generated by c09_harness\n---\nname: " << name << "\nversion: \"1\"\nsort: original\n"
@@ -327,10 +338,10 @@ int main(int argc, char** argv) {
         sc << "translator:\n  dictionary: " << name << "\n";
       }
       st.loaded.reset();
-      if (ncompile > 1)   // drop the previous compile's outputs
+      if (!again && !previous.empty())   // drop the previous compile's outputs
         for (const char* ext : {".prism.bin", ".table.bin", ".reverse.bin"}) {
           std::error_code e2;
-          std::filesystem::remove(work + "/build/c09d" + std::to_string(ncompile - 1) + ext, e2);
+          std::filesystem::remove(work + "/build/" + previous + ext, e2);
         }
       bool ok;
       path target{work + "/build/" + name + ".prism.bin"};
@@ -339,7 +350,7 @@ int main(int argc, char** argv) {
         auto prism = New<Prism>(target);
         Dictionary dict(name, {}, {table}, prism);
         DictCompiler dc(&dict);
-        dc.set_options(DictCompiler::kRebuild);
+        if (!(a.size() > 1 && a[1] == "again")) dc.set_options(DictCompiler::kRebuild);
         ok = dc.Compile(path{work + "/" + name + ".schema.yaml"});
       }
       // candidate keys for `queries`: the table's spellings and the raw syllables
@@ -352,6 +363,7 @@ int main(int argc, char** argv) {
       if (ok) {
         st.loaded.reset(new PrismX(target));
         ok = st.loaded->Load();
+        if (ok && (ncases_loaded_twice++ % 2 == 0)) ok = st.loaded->Load();
         if (!ok) st.loaded.reset();
       }
       if (!ok) {
